@@ -10,7 +10,6 @@ CONSTANTS
   OrphanMetaKept = FALSE
   CorruptIgnoresMeta = FALSE
   MayRelease = TRUE
-  DropBeforeDrain = FALSE
-INVARIANTS Safe HolderOwnsLock LiveResidentKept ServingOwnsLock AtMostOneActing
-PROPERTIES Usable
+  DropBeforeDrain = TRUE
+INVARIANTS AtMostOneActing
 CHECK_DEADLOCK FALSE
